@@ -99,6 +99,21 @@ type Results interface {
 }
 `
 
+// a source package whose import path ENDS in the path of a package it uses
+// (.../time uses "time"), declaring a type of the same name as one it uses
+const rawTime = `package time
+
+import stdtime "time"
+
+type Duration int64
+
+type Sleeper interface {
+	Sleep(d stdtime.Duration) Duration
+	Until(t stdtime.Time) (stdtime.Duration, error)
+	Local(d Duration) stdtime.Month
+}
+`
+
 func CorpusRaw(seed int64, tier string) []*Case {
 	src := &SrcPkg{Name: "rawsrc", Pkgs: []Pkg{dep("alpha", "x", "alpha")}, Raw: map[string]string{"raw.go": rawMain}}
 	ifaces := []string{"Base", "Embeds", "IntStore", "KeyStore", "ReaderAlias", "DepAlias", "Store", "Cache", "UserStore", "NamedStore", "Pair", "Results", "Literals"}
@@ -116,6 +131,11 @@ func CorpusRaw(seed int64, tier string) []*Case {
 			cfg.Args = []string{n}
 			cases = append(cases, &Case{Origin: "raw:" + n, Src: src, Cfg: cfg, Judge: judge, NoPredict: true, Repeat: 2, RunFmts: true})
 		}
+	}
+	tsrc := &SrcPkg{Name: "time", Pkgs: []Pkg{}, Raw: map[string]string{"time.go": rawTime}, SubDir: "time"}
+	for _, cfg := range []Cfg{{Dest: "implicit"}, {Dest: "implicit", SkipEnsure: true, Stub: true}, {Dest: "other"}, {Dest: "other", SkipEnsure: true, WithResets: true}, {Dest: "srcTest"}} {
+		cfg.Args = []string{"Sleeper"}
+		cases = append(cases, &Case{Origin: "raw:path-suffix:Sleeper", Src: tsrc, Cfg: cfg, Judge: judge, NoPredict: true, Repeat: 2, RunFmts: true})
 	}
 	// several at once: same-named methods from different literals, generic next to non-generic
 	for _, l := range [][]string{{"IntStore", "KeyStore"}, {"KeyStore", "IntStore"}, {"Store", "UserStore", "Cache"}, {"Embeds", "Base", "Results"}, {"UserStore:Users", "NamedStore:Named", "Pair"}} {
